@@ -502,6 +502,18 @@ pub fn lock_sentinels() -> Vec<Program> {
     vec![
         // S04 AB-BA deadlock
         with_main("S04", o(2, 0, 0), vec![], vec![vec![lk(0), lk(1), ul(1), ul(0)], vec![lk(1), lk(0), ul(0), ul(1)]], vec![], vec![]),
+        // S04b the same deadlock while each thread owns a loom Arc in its frame (D7)
+        with_main(
+            "S04b",
+            Objs { mutexes: 2, handles: 6, arcs: vec![None], ..Default::default() },
+            vec![K::ArcNew { h: 0, arc: 0 }.into(), K::ArcClone { from: 0, to: 2 }.into(), K::ArcClone { from: 0, to: 4 }.into()],
+            vec![
+                vec![K::ArcHold { h: 2 }.into(), lk(0), lk(1), ul(1), ul(0), K::ArcDrop { h: 2 }.into()],
+                vec![K::ArcHold { h: 4 }.into(), lk(1), lk(0), ul(0), ul(1), K::ArcDrop { h: 4 }.into()],
+            ],
+            vec![],
+            vec![],
+        ),
         // S05 three threads on one mutex, one uses try_lock
         with_main(
             "S05",
@@ -874,29 +886,9 @@ pub fn race_a_sentinels() -> Vec<Program> {
 /// RACE-s: two cell accesses inserted into small programs over locks, channels, notify,
 /// condvars and park/unpark.
 pub fn race_s(tier: &str) -> Vec<Program> {
-    let mut base: Vec<Program> = vec![];
-    if tier == "quick" {
-        base.extend(lock_family(1, 0, 2, 2, 4, false, false));
-        base.extend(lock_family(0, 1, 2, 2, 4, false, false));
-        base.extend(chan_family(1, 1, 1, false));
-        base.extend(wait_family(1, 1, 1, 6, true, true, false));
-    } else {
-        base.extend(lock_family(1, 1, 2, 2, 4, true, false));
-        base.extend(lock_family(1, 0, 3, 2, 6, false, false));
-        base.extend(chan_family(1, 2, 2, false));
-        base.extend(chan_family(2, 1, 2, false));
-        base.extend(wait_family(1, 1, 1, 8, true, true, true));
-        base.extend(wait_family(2, 1, 0, 8, true, true, false));
-    }
-    let mut out = vec![];
-    let mut seen = HashSet::new();
-    for b in &base {
-        for q in with_cell_pair(b, false, true) {
-            if seen.insert(q.text()) {
-                out.push(q);
-            }
-        }
-    }
+    let mut out = race_s_lock(tier);
+    out.extend(race_s_wait(tier));
+    out.extend(race_s_chan(tier));
     out
 }
 
@@ -1105,5 +1097,239 @@ pub fn leak_family() -> Vec<Program> {
     // send after the receiver was dropped: nothing leaks (D10)
     out.push(with_main("LEAK-send-after-drop", Objs { chans: 1, ..Default::default() }, vec![], vec![vec![K::Send { ch: 0, v: 1 }.into()], vec![K::DropRx { ch: 0 }.into()]], vec![], vec![]));
     out.push(with_main("LEAK-send-send-drop", Objs { chans: 1, ..Default::default() }, vec![], vec![vec![K::Send { ch: 0, v: 1 }.into()], vec![K::Send { ch: 0, v: 2 }.into()], vec![K::DropRx { ch: 0 }.into()]], vec![], vec![]));
+    out
+}
+
+
+// ------------------------------------------------------------------------------------------
+// crash points (C06)
+// ------------------------------------------------------------------------------------------
+
+/// Every way to insert one `PanicHere` into `p`: every thread, every position; unconditional and,
+/// right after an op with a schedule-dependent result, conditional on each value in `values`.
+pub fn with_crash_points(p: &Program, values: &[Res]) -> Vec<Program> {
+    let mut out = vec![];
+    for t in 0..p.threads.len() {
+        for pos in 0..=p.threads[t].len() {
+            let tag = (100 * t + pos) as u64;
+            // unguarded ops only (a guarded section keeps its own guard)
+            let mut q = insert_op(p, t, pos, K::PanicHere { tag }.into());
+            q.name = format!("{}+panic", p.name);
+            out.push(q);
+            if pos > 0 && p.threads[t][pos - 1].g.is_none() {
+                let prev = &p.threads[t][pos - 1].k;
+                let observable = matches!(prev, K::Load { .. } | K::Swap { .. } | K::FetchAdd { .. } | K::Cas { .. } | K::TryLock { .. } | K::TryRead { .. } | K::TryWrite { .. } | K::TryRecv { .. } | K::Recv { .. } | K::ArcCount { .. } | K::ArcGetMut { .. } | K::ArcDrop { .. });
+                if observable {
+                    for v in values {
+                        let mut q = insert_op(p, t, pos, K::PanicHere { tag }.when(pos - 1, *v));
+                        q.name = format!("{}+panic-if", p.name);
+                        out.push(q);
+                    }
+                }
+            }
+        }
+    }
+    out
+}
+
+// ------------------------------------------------------------------------------------------
+// additions made after seeded-change experiments (DESIGN.md section 10)
+// ------------------------------------------------------------------------------------------
+
+/// A-sc with a participating main thread: main joins its children one at a time and runs one
+/// RMW between consecutive joins, so a thread blocked in `join` later races with accesses that
+/// happened while it was blocked (4 threads with different roles).
+pub fn a_sc_stagger(nat: usize, nchildren: usize, maxlen: usize, max_total: usize) -> Vec<Program> {
+    let mut alpha: Vec<Op> = vec![];
+    for a in 0..nat {
+        alpha.push(fadd(a, 0, Sc));
+        alpha.push(swap(a, 0, Sc));
+    }
+    let pool = seqs(&alpha, maxlen);
+    let mut seen = HashSet::new();
+    let mut out = vec![];
+    // children are NOT symmetric here (join order distinguishes them): ordered tuples
+    fn tuples(pool: &[Vec<Op>], k: usize, left: usize, cur: &mut Vec<Vec<Op>>, out: &mut Vec<Vec<Vec<Op>>>) {
+        if cur.len() == k {
+            out.push(cur.clone());
+            return;
+        }
+        for t in pool {
+            if t.len() > left {
+                continue;
+            }
+            cur.push(t.clone());
+            tuples(pool, k, left - t.len(), cur, out);
+            cur.pop();
+        }
+    }
+    let mut sets = vec![];
+    tuples(&pool, nchildren, max_total, &mut vec![], &mut sets);
+    let mut main_opts: Vec<Option<Op>> = vec![None];
+    for a in 0..nat {
+        main_opts.push(Some(fadd(a, 0, Sc)));
+    }
+    for ch in sets {
+        if !interesting(&ch, used_atomics(&ch)) || used_atomics(&ch) != nat {
+            continue;
+        }
+        // which main op goes after which join (at most one main op in total, to bound the size)
+        for (slot, mo, order) in stagger_choices(nchildren, &main_opts) {
+            {
+                let mut main: Vec<Op> = (1..=nchildren).map(|t| Op::from(K::Spawn { t })).collect();
+                for (k, &t) in order.iter().enumerate() {
+                    main.push(K::Join { t }.into());
+                    if k == slot {
+                        if let Some(op) = &mo {
+                            main.push(op.clone());
+                        }
+                    }
+                }
+                for a in 0..nat {
+                    main.push(ld(a, Sc));
+                }
+                let mut threads = vec![main];
+                threads.extend(ch.clone());
+                // number the written values
+                let mut v = 0u64;
+                for op in threads.iter_mut().flatten() {
+                    if let K::Swap { v: x, .. } = &mut op.k {
+                        v += 1;
+                        *x = v;
+                    }
+                }
+                let p = Program { name: "A-sc-stagger".into(), objs: atomics(nat), threads };
+                if seen.insert(p.text()) {
+                    out.push(p);
+                }
+            }
+        }
+    }
+    out
+}
+
+/// (slot of the main op, the main op, join order) choices: every join order (the thread that
+/// unblocks main may have a higher index than a runnable bystander), the main op after any join.
+fn stagger_choices(n: usize, main_opts: &[Option<Op>]) -> Vec<(usize, Option<Op>, Vec<usize>)> {
+    fn perms(items: &[usize]) -> Vec<Vec<usize>> {
+        if items.len() <= 1 {
+            return vec![items.to_vec()];
+        }
+        let mut out = vec![];
+        for i in 0..items.len() {
+            let mut rest = items.to_vec();
+            let x = rest.remove(i);
+            for mut p in perms(&rest) {
+                p.insert(0, x);
+                out.push(p);
+            }
+        }
+        out
+    }
+    let ids: Vec<usize> = (1..=n).collect();
+    let mut out = vec![];
+    for order in perms(&ids) {
+        for slot in 0..n {
+            for mo in main_opts {
+                if mo.is_none() && slot > 0 {
+                    continue;
+                }
+                out.push((slot, mo.clone(), order.clone()));
+            }
+        }
+    }
+    out
+}
+
+/// Three-thread idioms whose synchronisation comes from two notifiers (both must be acquired by
+/// the waiter); relaxed flags tell the waiter that both notifications were issued.
+pub fn two_notifier_bases() -> Vec<Program> {
+    let flags = |k: K, f: usize| vec![Op::from(k), st(f, 1, Rlx)];
+    let mut out = vec![];
+    // park / unpark
+    out.push(with_main(
+        "IDIOM-2unpark",
+        Objs { atomics: vec![0, 0], ..Default::default() },
+        vec![],
+        vec![flags(K::Unpark { t: 0 }, 0), flags(K::Unpark { t: 0 }, 1)],
+        vec![K::Await { a: 0, mo: Rlx, want: 1 }.into(), K::Await { a: 1, mo: Rlx, want: 1 }.into(), K::Park.into()],
+        vec![],
+    ));
+    // one unparker only (control)
+    out.push(with_main("IDIOM-1unpark", Objs { atomics: vec![0], ..Default::default() }, vec![], vec![flags(K::Unpark { t: 0 }, 0)], vec![K::Await { a: 0, mo: Rlx, want: 1 }.into(), K::Park.into()], vec![]));
+    // Notify
+    out.push(with_main(
+        "IDIOM-2notify",
+        Objs { atomics: vec![0, 0], notifies: 1, ..Default::default() },
+        vec![],
+        vec![flags(K::NNotify { n: 0 }, 0), flags(K::NNotify { n: 0 }, 1)],
+        vec![K::Await { a: 0, mo: Rlx, want: 1 }.into(), K::Await { a: 1, mo: Rlx, want: 1 }.into(), K::NWait { n: 0 }.into()],
+        vec![],
+    ));
+    // two senders, the receiver takes both messages
+    out.push(with_main(
+        "IDIOM-2send",
+        Objs { chans: 1, ..Default::default() },
+        vec![],
+        vec![vec![K::Send { ch: 0, v: 1 }.into()], vec![K::Send { ch: 0, v: 2 }.into()]],
+        vec![K::Recv { ch: 0 }.into(), K::Recv { ch: 0 }.into()],
+        vec![],
+    ));
+    // mutex hand-over chain and condvar with flag
+    out.push(with_main(
+        "IDIOM-cv",
+        Objs { atomics: vec![0], mutexes: 1, condvars: 1, ..Default::default() },
+        vec![],
+        vec![vec![K::Lock { m: 0 }.into(), st(0, 1, Rlx), K::NotifyOne { cv: 0 }.into(), K::Unlock { m: 0 }.into()]],
+        vec![K::Lock { m: 0 }.into(), ld(0, Rlx), K::Wait { cv: 0, m: 0 }.when(3, Res::V(0)), K::Unlock { m: 0 }.into()],
+        vec![],
+    ));
+    out
+}
+
+pub fn race_s_lock(tier: &str) -> Vec<Program> {
+    let mut base: Vec<Program> = vec![];
+    base.extend(lock_family(1, 0, 2, 2, 4, false, false));
+    base.extend(lock_family(0, 1, 2, 2, 4, false, false));
+    base.extend(lock_family(0, 1, 3, 2, 6, false, false));
+    if tier != "quick" {
+        base.extend(lock_family(1, 1, 2, 2, 4, true, false));
+        base.extend(lock_family(1, 0, 3, 2, 6, false, false));
+        base.extend(lock_family(0, 1, 3, 2, 6, true, false));
+    }
+    expand_cells(&base)
+}
+
+pub fn race_s_wait(tier: &str) -> Vec<Program> {
+    let mut base: Vec<Program> = vec![];
+    base.extend(wait_family(1, 1, 1, 6, true, true, false));
+    base.extend(two_notifier_bases());
+    if tier != "quick" {
+        base.extend(wait_family(1, 1, 1, 8, true, true, true));
+        base.extend(wait_family(2, 1, 0, 8, true, true, false));
+    }
+    expand_cells(&base)
+}
+
+pub fn race_s_chan(tier: &str) -> Vec<Program> {
+    let mut base: Vec<Program> = vec![];
+    base.extend(chan_family(1, 1, 1, false));
+    base.extend(chan_family(2, 1, 2, false));
+    if tier != "quick" {
+        base.extend(chan_family(1, 2, 2, false));
+    }
+    expand_cells(&base)
+}
+
+fn expand_cells(base: &[Program]) -> Vec<Program> {
+    let mut out = vec![];
+    let mut seen = HashSet::new();
+    for b in base {
+        for q in with_cell_pair(b, false, true) {
+            if seen.insert(q.text()) {
+                out.push(q);
+            }
+        }
+    }
     out
 }
